@@ -25,7 +25,7 @@ Requirements for the change:
 1. It must be a plausible mistake or "optimisation" a developer could make (a wrong bound, a swapped branch, a missing case, a hoisted buffer, a dropped clone, a skipped check, state that leaks between calls ...), NOT a deliberate sabotage that ordinary use would expose at once. Prefer a change that needs something specific to manifest: a particular multi-feature query shape, an unusual input value (boundary integers, nulls, empty lists), a particular adapter batching/interleaving, a multi-step sequence, or two cooperating sites that each look fine alone.
 2. It must compile, and the existing test suite must still pass with it: run `cd {wt} && CARGO_NET_OFFLINE=true cargo test --workspace --no-fail-fast --offline -j 6 2>&1 | tail -40` (at the very least `-p trustfall_core -p trustfall -p trustfall_stubgen -p trustfall_derive`; the full workspace is preferred) and confirm there are 0 failures. If tests fail, pick a different change. Do not edit or delete existing tests or snapshot files.
 3. It must change only non-test source code of the project (under {wt}), be small (ideally < 30 changed lines), and must not be guarded by any cfg/feature.
-4. Provide a demonstration: a NEW test (for example a new file under {wt}/trustfall_core/tests/ or {wt}/trustfall/tests/, or a small example program) that uses only the project's public API (the cargo feature `__private` of trustfall_core exposes the test adapters numbers/filesystem/nullables if you need data) and that FAILS with your change applied and PASSES on the original code. Verify both directions yourself (use `git stash` / `git diff` to flip the change).
+4. Provide a demonstration: a NEW test (for example a new file under {wt}/trustfall_core/tests/ or {wt}/trustfall/tests/, or a small example program) that uses only the project's public API (the cargo feature `__private` of trustfall_core exposes the test adapters numbers/filesystem/nullables if you need data) and that FAILS with your change applied and PASSES on the original code. Verify both directions yourself (use `git diff > /tmp/mychange.diff`, `git apply -R` and `git apply` to flip the change; do NOT use `git stash` (the stash is shared between worktrees and other agents work in sibling worktrees); set `TMPDIR` to a private directory such as /tmp/seedtmp_<id> when running tests, because some tests use fixed paths under the temp dir).
 
 Deliverables — write these files:
 - {out}/patch.diff : output of `git -C {wt} diff` containing ONLY the property-breaking source change (not the demonstration).
